@@ -89,6 +89,32 @@ func whipHistory(t *tr.Trace, r *tr.Rand) {
 		}
 		t.Note(fmt.Sprintf("whip:%s:%d", strings.ReplaceAll(a.name, " ", "-"), rec.Code))
 	}
+	// every set of permissions that does not contain `present` (op included:
+	// moderation rights are not publishing rights), as a token
+	others := []string{"op", "message", "caption", "record", "token"}
+	for mask := 1; mask < 1<<len(others); mask++ {
+		var ps []string
+		for i, p := range others {
+			if mask&(1<<i) != 0 {
+				ps = append(ps, p)
+			}
+		}
+		n0 := len(h.tokCanon)
+		h.send(o, &smsg{Type: "groupaction", Kind: "maketoken", Value: val{Kind: "t", T: tokSpec{Group: "wg", User: sp(fmt.Sprintf("np%d", mask)), Perms: ps, HasPerms: true, Expires: ip(3600000)}}})
+		h.drainAll()
+		if len(h.tokCanon) == n0 {
+			continue
+		}
+		tok := h.tokReal[fmt.Sprintf("T%03d", n0)]
+		rec := whipPost("wg", tok, sdp)
+		t.Checked("C11.whip_needs_present")
+		if rec.Code == http.StatusCreated {
+			t.Fail("C11", "whip_needs_present", fmt.Sprintf("WHIP session created for a token that grants %v, not present (status %d)", ps, rec.Code))
+		}
+		if rec.Code != http.StatusCreated && members("wg") != base {
+			t.Fail("C11", "whip_refusal_leaves_nobody", fmt.Sprintf("token granting %v: refused with status %d but group wg has %d members", ps, rec.Code, members("wg")))
+		}
+	}
 	// a session with a bearer token
 	rec := whipPost("wg", good, sdp)
 	t.Checked("C11.whip_needs_present")
